@@ -31,7 +31,7 @@ def plan(tier, seed):
             shape = [int(rng.integers(1, 7)) for _ in range(nd)]
             if (nd >= 2 and rng.uniform() < 0.3) or (fun in ('quantile', 'lorenz') and rng.uniform() < 0.8):
                 shape[-1] = int(rng.integers(8, 41))
-            cases.append(dict(fun=fun, shape=shape, content=pick(['random', 'random', 'ties', 'silent', 'zeros', 'huge', 'tiny', 'tiny']) if not (fun == 'lorenz' and rng.uniform() < 0.15) else 'dyadic', keepdims=bool(rng.integers(0, 2)),
+            cases.append(dict(fun=fun, shape=shape, content=(pick(['random', 'random', 'ties', 'silent', 'zeros', 'huge', 'tiny', 'tiny']) if not (fun in ('ratio', 'amplitude') and rng.uniform() < 0.12) else 'huge-amplitude') if not (fun == 'lorenz' and rng.uniform() < 0.15) else 'dyadic', keepdims=bool(rng.integers(0, 2)),
                               use_sensor=bool(rng.integers(0, 2)), rs=[seed, 18, i]))
             i += 1
     return cases
@@ -49,6 +49,9 @@ def make(rng, shape, content):
         x = np.zeros(shape, dtype=complex)
     elif content == 'huge':
         x = x * 10 ** rng.uniform(-100, 100)
+    elif content == 'huge-amplitude':
+        # magnitudes whose SQUARES leave the double range: still finite inputs for the masks that are defined through amplitudes
+        x = x * 10 ** (rng.choice([-1, 1]) * rng.uniform(155, 300))
     elif content == 'tiny':
         x = x * 10 ** rng.uniform(-9, -5)              # low-level time-frequency points (eps guards become visible)
     return x
